@@ -228,8 +228,9 @@ Inductive trans (s : st) : op -> st -> out -> Prop :=
     trans s (TokenRefresh pl cr (Some n) scopes) s (OErr 4 E_scope)
 | T_authorize cl uri scopes nonce chal ax :
     trans s (Authorize cl uri scopes nonce chal ax)
-      {| reqs := {| q_id := S (next s); q_client := cl; q_uri := uri; q_scopes := scopes; q_nonce := nonce;
-                    q_chal := chal; q_done := false; q_sub := hinted_sub ax; q_auth := 0; q_extra := ax |} :: reqs s;
+      {| reqs := {| q_id := S (next s); q_client := cl; q_uri := eff_uri uri ax; q_scopes := eff_scopes scopes ax;
+                    q_nonce := eff_nonce nonce ax; q_chal := eff_chal chal ax;
+                    q_done := false; q_sub := hinted_sub ax; q_auth := 0; q_extra := ax |} :: reqs s;
          codes := codes s; rtoks := rtoks s; next := S (next s); ncode := ncode s; norefresh := norefresh s |}
       (OAuthz (Some (S (next s))))
 | T_login n sub stamp q :
@@ -253,7 +254,7 @@ Inductive trans (s : st) : op -> st -> out -> Prop :=
 | T_refresh pl cr n scopes t c sc :
     find_rt s n = Some t -> find_client cf (r_client t) = Some c -> has_refresh s c = true -> f_refresh cf = true ->
     cred_proves cf cr (r_client t) = true -> narrowed scopes (r_scopes t) = Some sc ->
-    trans s (TokenRefresh pl cr (Some n) scopes) (fst (issue_refresh s t c sc)) (snd (issue_refresh s t c sc))
+    trans s (TokenRefresh pl cr (Some n) scopes) (fst (issue_refresh cf s t c sc)) (snd (issue_refresh cf s t c sc))
 | T_drop cl :
     trans s (DropRefresh cl)
       {| reqs := reqs s; codes := codes s; rtoks := rtoks s; next := next s; ncode := ncode s;
@@ -303,7 +304,7 @@ Qed.
 Lemma finish_refresh_trans pl r s cr n scopes t c :
   find_rt s n = Some t -> find_client cf (c_id c) = Some c -> has_refresh s c = true -> f_refresh cf = true ->
   cred_proves cf cr (c_id c) = true ->
-  trans s (TokenRefresh pl cr (Some n) scopes) (fst (finish_refresh r s t c scopes)) (snd (finish_refresh r s t c scopes)).
+  trans s (TokenRefresh pl cr (Some n) scopes) (fst (finish_refresh cf r s t c scopes)) (snd (finish_refresh cf r s t c scopes)).
 Proof.
   intros Hrt Hf Hr Hfl Hp. unfold finish_refresh.
   destruct (String.eqb (c_id c) (r_client t)) eqn:E; cbn [negb]; [|terr].
@@ -370,8 +371,8 @@ Proof.
       apply prov_refresh_client_inl in Hc as [Hf [Hp Hr]].
       destruct (find_rt s n) as [t|] eqn:Hrt; [|intros [= <- <-]; terr].
       intro Hi.
-      replace s' with (fst (finish_refresh Provider s t c scopes)) by now rewrite Hi.
-      replace x with (snd (finish_refresh Provider s t c scopes)) by now rewrite Hi.
+      replace s' with (fst (finish_refresh cf Provider s t c scopes)) by now rewrite Hi.
+      replace x with (snd (finish_refresh cf Provider s t c scopes)) by now rewrite Hi.
       now apply finish_refresh_trans.
     + unfold legacy_refresh. destruct (legacy_client cf cr) as [c|e] eqn:Hc;
         [|intros [= <- <-]; apply legacy_client_err in Hc; terr].
@@ -381,8 +382,8 @@ Proof.
       destruct (f_refresh cf) eqn:Hfl; cbn [negb]; [|intros [= <- <-]; terr].
       destruct (find_rt s n) as [t|] eqn:Hrt; [|intros [= <- <-]; terr].
       intro Hi.
-      replace s' with (fst (finish_refresh Legacy s t c scopes)) by now rewrite Hi.
-      replace x with (snd (finish_refresh Legacy s t c scopes)) by now rewrite Hi.
+      replace s' with (fst (finish_refresh cf Legacy s t c scopes)) by now rewrite Hi.
+      replace x with (snd (finish_refresh cf Legacy s t c scopes)) by now rewrite Hi.
       now apply finish_refresh_trans.
 Qed.
 
@@ -416,7 +417,7 @@ Lemma trans_refresh_inv s pl cr rt scopes s' t0 :
   exists n t c sc, rt = Some n /\ find_rt s n = Some t /\ find_client cf (r_client t) = Some c
     /\ has_refresh s c = true /\ f_refresh cf = true /\ cred_proves cf cr (r_client t) = true
     /\ narrowed scopes (r_scopes t) = Some sc
-    /\ issue_refresh s t c sc = (s', OTokens t0).
+    /\ issue_refresh cf s t c sc = (s', OTokens t0).
 Proof.
   intro Ht. inversion Ht; subst; [contradiction|].
   match goal with Hf : find_rt s ?n = Some ?t, Hc : find_client cf (r_client ?t) = Some ?c,
@@ -484,7 +485,7 @@ Proof.
   destruct o as [cl uri scopes nonce chal ax | n sub stamp | n | pl f cr code uri ver | pl cr rt scopes | cl]; cbn [step].
   - (* authorize *)
     unfold do_authorize. destruct (find_client cf cl); [|intros [= <- <-]; (apply T_same; exact I)].
-    destruct (string_in uri (c_redirects c) && negb (is_nil scopes) && extra_ok ax); intros [= <- <-];
+    destruct (ro_accepted cf ax && string_in (eff_uri uri ax) (c_redirects c) && negb (is_nil (eff_scopes scopes ax)) && extra_ok ax); intros [= <- <-];
       [apply T_authorize | (apply T_same; exact I)].
   - unfold do_login. destruct (find_req s n) eqn:Hq; intros [= <- <-]; [eapply T_login; eauto | (apply T_same; exact I)].
   - unfold do_callback. destruct (find_req s n) as [q|] eqn:Hq; [|intros [= <- <-]; (apply T_same; exact I)].
